@@ -44,6 +44,26 @@ fn strategy_args(s: Strategy) -> Vec<String> {
     }
 }
 
+/// A fixed pseudo-random product state (every basis state has non-zero amplitude).
+fn product_state(n: usize, seed: u64) -> Vec<C64> {
+    let mut x = crate::decider::Xoshiro::new(seed);
+    let mut st = vec![C64(1.0, 0.0)];
+    for _ in 0..n {
+        let th = 0.3 + 0.9 * ((x.next() % 1000) as f64 / 1000.0);
+        let ph = 6.283 * ((x.next() % 1000) as f64 / 1000.0);
+        let (a, b) = (C64(th.cos(), 0.0), C64(th.sin() * ph.cos(), th.sin() * ph.sin()));
+        let mut nx = Vec::with_capacity(st.len() * 2);
+        // new qubit becomes the next higher bit
+        for amp in [a, b] {
+            for s in &st {
+                nx.push(gatesim::Amp::mul(s, &amp));
+            }
+        }
+        st = nx;
+    }
+    st
+}
+
 /// Judge the program text the optimiser produced for `input`.
 fn judge_output(input: &HCirc, text: &str, how: &str, batch: &str, out: &mut RunOut) {
     let mut vio = |class: &str, detail: String| {
@@ -81,6 +101,33 @@ fn judge_output(input: &HCirc, text: &str, how: &str, batch: &str, out: &mut Run
             vio("gate_outside_basic_set", format!("{how}: printed program uses '{name}'"));
             return;
         }
+    }
+    if input.n > 6 {
+        // too wide for the full unitary: compare the action on two fixed pseudo-random product
+        // states (all columns of the unitary enter with non-zero weight), up to one common scalar
+        let mut us = vec![];
+        let mut vs = vec![];
+        for k in 0..2u64 {
+            let st = product_state(input.n, 0x5eed_0000 + k);
+            let mut a = st.clone();
+            for g in &input.gates {
+                gatesim::apply_gate(&mut a, g).expect("float gate");
+            }
+            us.push(a);
+            vs.push(p.apply(&st));
+        }
+        for col in &vs {
+            for a in col.iter().take(64) {
+                out.event_digest = mix(out.event_digest, ((a.0 * 1e6).round() as i64 as u64) ^ ((a.1 * 1e6).round() as i64 as u64).rotate_left(21));
+            }
+        }
+        if !gatesim::proj_equal(&us, &vs, 1e-7, false) {
+            vio(
+                "not_equivalent",
+                format!("{how}: the printed {}-gate program acts differently from the input on random product states ({} qubits)", p.gates.len(), input.n),
+            );
+        }
+        return;
     }
     let u = gatesim::unitary::<C64>(input).expect("float unitary");
     let v = p.unitary();
@@ -122,6 +169,7 @@ impl Property for C03 {
             SubBatch { name: "plain", quick: 80_000, thorough: 500_000 },
             SubBatch { name: "swap", quick: 20_000, thorough: 120_000 },
             SubBatch { name: "empty", quick: 1_000, thorough: 2_000 },
+            SubBatch { name: "wide", quick: 600, thorough: 20_000 },
             SubBatch { name: "child", quick: 1_500, thorough: 8_000 },
             SubBatch { name: "faults", quick: 3_000, thorough: 16_000 },
         ]
@@ -131,8 +179,12 @@ impl Property for C03 {
     }
 
     fn generate(&self, d: &mut Decider, _tier: Tier, sub: &str) -> Sc {
-        let n = 1 + d.choose("n", 5);
-        let ng = d.choose("ng", 31);
+        let (n, ng) = if sub == "wide" {
+            // more than nine qubits (two-digit indices), few gates; judged on random input states
+            (10 + d.choose("wn", 3), d.choose("wng", 14))
+        } else {
+            (1 + d.choose("n", 5), d.choose("ng", 31))
+        };
         let mix = GateMix { clifford_t_only: d.coin("ct", 1, 2), allow_swap: sub == "swap", allow_ccz: true, allow_xcx: true, allow_rx: true, max_den: 16 };
         let mut circ = match sub {
             "empty" => HCirc::new(n),
@@ -151,6 +203,10 @@ impl Property for C03 {
         if n >= 2 && d.coin("regs", 1, 4) {
             let cut = 1 + d.choose("cut", n - 1);
             circ.regs = vec![cut, n - cut];
+        }
+        // equivalent spellings of the same program in half of the runs
+        if d.coin("style", 1, 2) {
+            circ.style = d.draw64("style.seed") | 1;
         }
         let strategy = *d.pick("strategy", &[Strategy::Default, Strategy::Full, Strategy::Flow, Strategy::Clifford]);
         let mode = match sub {
@@ -281,7 +337,9 @@ impl Property for C03 {
                             let mut off = header.len();
                             let mut kk = 0;
                             for st in &stmts {
-                                if off + st.trim_end().len() <= cut {
+                                // a statement is complete once its ';' is inside the cut
+                                // (blanks or a comment may follow it)
+                                if off + st.find(';').map(|i| i + 1).unwrap_or(st.len()) <= cut {
                                     kk += 1;
                                     off += st.len();
                                 } else {
